@@ -346,13 +346,15 @@ class Index:
             if sub in self.modules:
                 return Ent("module", sub)
             return Ent("external", sub)
-        if m.is_pkg and f"{modname}.{name}" in self.modules:
-            return Ent("module", f"{modname}.{name}")
+        # names re-exported through import_from_all override the sub-module attribute of the same name
+        # (namespace.update runs after the import that binds the sub-module)
         for src in m.reexports:
             if src in self.modules:
                 r = self.resolve_in_module(src, name, _seen)
-                if r is not None and r.kind != "builtin":
+                if r is not None and r.kind not in ("builtin", "module"):
                     return r
+        if m.is_pkg and f"{modname}.{name}" in self.modules:
+            return Ent("module", f"{modname}.{name}")
         return None
 
     def _module_ent(self, dotted):
